@@ -240,6 +240,16 @@ func (r *Run) CaseS(key string, nontrivial bool) {
 // Evals adds n evaluations that carry no distinct key of their own.
 func (r *Run) Evals(n int64) { atomic.AddInt64(&r.evals, n) }
 
+// outRoot is where evidence and replays are written: the /verif root, or - for monitor
+// self-tests against a scratch copy of bfe (bin/check with VERIF_REPO) - a scratch
+// directory, so that a run against a mutant never overwrites the evidence of /repo.
+func (r *Run) outRoot() string {
+	if e := os.Getenv("VERIF_OUT_ROOT"); e != "" {
+		return e
+	}
+	return r.Root
+}
+
 // Count bumps a named counter reported in the evidence.
 func (r *Run) Count(name string, d int64) {
 	r.mu.Lock()
@@ -289,7 +299,7 @@ func (r *Run) Violation(sig, what string, witness interface{}) {
 	if r.violCount[sig] > 2 || len(r.viols) >= 40 {
 		return
 	}
-	dir := filepath.Join(r.Root, "replays", r.Prop)
+	dir := filepath.Join(r.outRoot(), "replays", r.Prop)
 	os.MkdirAll(dir, 0o755)
 	wb, _ := json.Marshal(witness)
 	name := fmt.Sprintf("%s-%016x.json", truncate(sig, 60), Hash64(string(wb)))
@@ -456,7 +466,7 @@ func (r *Run) Finish() {
 	r.mu.Unlock()
 	if r.Replay == "" {
 		b, _ := json.MarshalIndent(ev, "", " ")
-		dir := filepath.Join(r.Root, "evidence")
+		dir := filepath.Join(r.outRoot(), "evidence")
 		os.MkdirAll(dir, 0o755)
 		tmp := filepath.Join(dir, "."+r.Prop+".json.tmp")
 		if err := os.WriteFile(tmp, b, 0o644); err == nil {
